@@ -20,6 +20,7 @@ import (
 	"time"
 
 	"verif/internal/pipeline"
+	"verif/internal/simbuild"
 	"verif/spec"
 )
 
@@ -30,6 +31,8 @@ type Sim struct {
 	ProgJS  string
 	Program *spec.Program
 	Roots   []string
+	// map-range statements of the generated file put behind the order seam / left native
+	MapRangeSites, MapRangeNative int
 }
 
 func copyDir(src, dst string, rename func(string) string) error {
@@ -108,6 +111,11 @@ func Assemble(verifRoot, self, pluginBin string, p *spec.Program, work string) (
 	if err := os.WriteFile(progJS, pj, 0o644); err != nil {
 		return nil, err
 	}
+	// map-order seam inside the generated converters
+	rep, err := simbuild.RewriteGenerated(mod)
+	if err != nil {
+		return nil, err
+	}
 	bin := filepath.Join(work, "convsim.test")
 	cmd := exec.Command("go", "test", "-c", "-cover", "-o", bin, "./p/")
 	cmd.Dir = mod
@@ -116,7 +124,7 @@ func Assemble(verifRoot, self, pluginBin string, p *spec.Program, work string) (
 	if err != nil {
 		return nil, &pipeline.BuildError{What: "compilation of the simulator (generated code + harness) failed", Out: tailS(string(out), 6000)}
 	}
-	return &Sim{Work: work, Bin: bin, ProgJS: progJS, Program: p, Roots: p.Config.Types}, nil
+	return &Sim{Work: work, Bin: bin, ProgJS: progJS, Program: p, Roots: p.Config.Types, MapRangeSites: len(rep.MapRangeSites), MapRangeNative: len(rep.MapRangeNative)}, nil
 }
 
 func tailS(s string, n int) string {
@@ -153,7 +161,7 @@ type ProcResult struct {
 }
 
 var (
-	sigRe    = regexp.MustCompile(`SIGNATURE (\S+)`)
+	sigRe    = regexp.MustCompile(`SIGNATURE ([^\s)]+)`)
 	detailRe = regexp.MustCompile(`(?s)VIOLATION-DETAIL [^\n]*(\n\s+[^\n]*)*`)
 	failRe   = regexp.MustCompile(`-rapid\.failfile="([^"]+)"`)
 )
@@ -542,23 +550,25 @@ func Check(verifRoot, self, prop, tier string, seed uint64) (*Result, error) {
 		samples = append(samples, "no history recorded")
 	}
 	res.Evidence = map[string]interface{}{
-		"evaluations":                  total.Iterations,
-		"distinct_nontrivial":          total.NClasses,
-		"samples":                      samples,
-		"operations":                   total.Ops,
-		"faults_fired":                 total.Faults,
-		"probes":                       total.Probes,
-		"known_findings_met":           total.KnownHits,
-		"programs":                     len(runs) - len(dropped),
-		"random_programs_dropped":      dropped,
-		"per_program_and_root":         perProg,
-		"rapid_checks_per_root":        map[string]int{"corpus": checks, "random": rchecks},
-		"max_steps_per_history":        steps,
-		"histories_per_hour":           int(float64(total.Iterations) / res.Wall * 3600),
-		"simulated_time":               "none: the converters have no clock; progress is counted in operations",
-		"generated_code_statements":    cov[1],
-		"generated_code_covered_lower": cov[0],
-		"exhaustive":                   false,
+		"evaluations":             total.Iterations,
+		"distinct_nontrivial":     total.NClasses,
+		"samples":                 samples,
+		"operations":              total.Ops,
+		"faults_fired":            total.Faults,
+		"probes":                  total.Probes,
+		"known_findings_met":      total.KnownHits,
+		"programs":                len(runs) - len(dropped),
+		"random_programs_dropped": dropped,
+		"per_program_and_root":    perProg,
+		"rapid_checks_per_root":   map[string]int{"corpus": checks, "random": rchecks},
+		"max_steps_per_history":   steps,
+		"histories_per_hour":      int(float64(total.Iterations) / res.Wall * 3600),
+		"simulated_time":          "none: the converters have no clock; progress is counted in operations",
+		"generated_code_map_range_sites_behind_seam": runs[0].sim.MapRangeSites,
+		"generated_code_map_range_sites_left_native": runs[0].sim.MapRangeNative,
+		"generated_code_statements":                  cov[1],
+		"generated_code_covered_lower":               cov[0],
+		"exhaustive":                                 false,
 		"components": map[string]interface{}{
 			"real": []string{"generated converters and schema of each program (plugin built from /repo's working tree)", "gogo-generated structs",
 				"terraform-plugin-framework value types v0.10.0", "tftypes + msgpack DynamicValue codec (restart)"},
